@@ -14,7 +14,7 @@ from harness import pipe_common as PC
 PID = 'C16'
 BASE = {'X': 1, 'Y': 2, 'SP': 3, 'COMMA': 4, 'QT': 5, 'TAB': 6, 'BAR': 7, 'NL': 8, 'DASH': 9, 'ZED': 10, 'Tokens': '<- VWTokens', 'NSCount': 2, 'StripWholeLine': 'FALSE'}
 INVS = ['RoundTripCSV', 'RoundTripTSV', 'ArityExact', 'VWFieldsInColumns']
-CHARMAPS = [{1: 'x', 2: 'y', 10: 'z'}, {1: 'é', 2: 'ñ', 10: '\u3000'}, {1: '0', 2: '1', 10: '\u00a0'}, {1: 'A', 2: "'", 10: '\t'}, {1: 'x', 2: 'y', 10: '\u2003'}, {1: 'q', 2: 'w', 10: ':'}]
+CHARMAPS = [{1: 'x', 2: 'y', 10: 'z'}, {1: 'é', 2: 'ñ', 10: '\u3000'}, {1: '0', 2: '1', 10: '\u00a0'}, {1: 'A', 2: "'", 10: '\t'}, {1: 'x', 2: 'y', 10: '\u2003'}, {1: 'q', 2: 'w', 10: ':'}, {1: '\\', 2: 'y', 10: 'z'}]      # the last: the letter X is a backslash (no escape character in CSV/TSV)
 FIXED = {3: ' ', 4: ',', 5: '"', 6: '\t', 7: '|', 8: '\n', 9: '-'}
 
 
@@ -69,8 +69,10 @@ def main():
         jobs = []
         chunk = 3000 if fmt != 'vw' else max(200, len(cases) // 12)
         meta = []
-        for i in range(0, len(cases), chunk):
-            cmi = CHARMAPS[(i // chunk + seed) % len(CHARMAPS)] if i else cm
+        spans = [(i, CHARMAPS[(i // chunk + seed) % len(CHARMAPS)] if i else cm) for i in range(0, len(cases), chunk)]
+        if fmt in ('csv', 'tsv'):
+            spans += [(i, CHARMAPS[-1]) for i in range(0, len(cases), chunk)]        # every row once more with the backslash as the letter
+        for i, cmi in spans:
             part = cases[i:i + chunk]
             lines = [text(c_[1], cmi) for c_ in part]
             if fmt == 'csv':
